@@ -51,9 +51,18 @@ Cases ==
   \* one engine, two templates in different directories that include the same file ("../s/part.liq"), whose own
   \* include ("leaf.liq") is resolved against the directory of the template being rendered
   \cup [g : {"crossdir"}, where : {"disk", "cache"}, phase : 1..2]
+  \* the file is the one named by exactly the string value: white space at either end is part of the name
+  \cup [g : {"exactname"}, top : 1..2, k : 1..4, where : {"disk", "cache"}]
   \cup [g : {"loop"}, top : 1..2]
   \cup [g : {"fail"}, top : 1..2, how : {"nonstring-int", "nonstring-nil", "nonstring-arr", "inner-error", "inner-syntax", "missing-nested"}]
 
+\* 1: " f.liq" (next to f.liq)   2: "f.liq " (only f.liq is there)   3: "f.liq\n", captured (next to f.liq)   4: "f.liq" (only " f.liq" is there)
+Nm(k) == CASE k = 1 -> <<32>> \o F_LIQ [] k = 2 -> F_LIQ \o <<32>> [] k = 3 -> F_LIQ \o <<10>> [] k = 4 -> F_LIQ
+InDir(x, name) == JoinPath(DirOf(TOPS[x.top]), name)
+ExactFiles(x) == CASE x.k = 1 -> << <<InDir(x, Nm(1)), Body(IF x.where = "disk" THEN DISK ELSE CACHE)>>, <<InDir(x, F_LIQ), Body(DECOY)>> >>
+                   [] x.k = 2 -> << <<InDir(x, F_LIQ), Body(DECOY)>> >>
+                   [] x.k = 3 -> << <<InDir(x, Nm(3)), Body(IF x.where = "disk" THEN DISK ELSE CACHE)>>, <<InDir(x, F_LIQ), Body(DECOY)>> >>
+                   [] x.k = 4 -> << <<InDir(x, Nm(1)), Body(DECOY)>> >>
 RelOf(x) == IF (x.g = "basic" /\ x.rel = "sub") \/ x.g = "nestedsub" THEN SUB_F ELSE F_LIQ
 Target(x) == JoinPath(DirOf(TOPS[x.top]), RelOf(x))
 IncArg(x) ==
@@ -79,6 +88,10 @@ ProgOf(x) ==
     [] x.g = "nestedsub" -> <<T(<<60>>), AssignW, Inc(Lit(S(SUB_F))), T(<<62>>)>>
     [] x.g = "trimedge" ->
          <<T(<<97, 32, 10>>)>> \o (IF x.k = 5 THEN <<[t |-> "trimL"], Inc(Lit(S(F_LIQ))), [t |-> "trimR"]>> ELSE <<Inc(Lit(S(F_LIQ)))>>) \o <<T(<<32, 10, 32, 98>>)>>
+    [] x.g = "exactname" ->
+         <<T(<<60>>), AssignW>>
+         \o (IF x.k = 3 THEN <<[t |-> "capture", name |-> <<109>>, body |-> <<T(Nm(3))>>], Inc(Var(<<109>>))>> ELSE <<Inc(Lit(S(Nm(x.k))))>>)
+         \o <<T(<<62>>)>>
     [] x.g = "loop" -> <<[t |-> "for", tag |-> "for", var |-> VV, coll |-> [t |-> "range", a |-> Lit(IntV(1)), b |-> Lit(IntV(3))],
                          body |-> <<Inc(Lit(S(F_LIQ))), T(<<44>>)>>], Ob(Var(VV))>>
     [] x.g = "fail" ->
@@ -109,6 +122,7 @@ FilesOf(x) ==
                                      <<JoinPath(DirOf(TOPS[x.top]), G_LIQ), Body(NEST)>>,
                                      <<JoinPath(DirOf(Target(x)), G_LIQ), Body(DECOY)>> >> ELSE <<>>)
     [] x.g = "loop" -> << <<Target(x), Body(DISK)>> >>
+    [] x.g = "exactname" -> IF x.where = "disk" THEN ExactFiles(x) ELSE <<>>
     [] x.g = "changed" ->
          (CASE x.change = "edit" -> << <<Target(x), Body(IF x.phase = 1 THEN DISK ELSE DECOY)>> >>
             [] x.change = "remove" -> IF x.phase = 1 THEN << <<Target(x), Body(DISK)>> >> ELSE <<>>
@@ -133,6 +147,7 @@ CacheOf(x) ==
                                                         <<JoinPath(DirOf(TOPS[x.top]), G_LIQ), Body(NEST)>>,
                                                         <<JoinPath(DirOf(Target(x)), G_LIQ), Body(DECOY)>> >> ELSE <<>>
     [] x.g = "changed" -> IF x.change \in {"shadow", "unshadow"} THEN << <<Target(x), Body(CACHE)>> >> ELSE <<>>
+    [] x.g = "exactname" -> IF x.where = "cache" THEN ExactFiles(x) ELSE <<>>
     [] x.g = "empty" -> (CASE x.where \in {"cache", "both-emptycache"} -> << <<Target(x), <<>>>> >>
                            [] x.where = "both-emptydisk" -> << <<Target(x), Body(CACHE)>> >>
                            [] OTHER -> <<>>)
@@ -153,6 +168,9 @@ NestedAndLoop ==
   /\ (c.g \in {"nested", "nestedsub"} /\ st.status # "run") => st.status = "ok" /\ st.sink.acc = <<60, 40, 91>> \o NEST \o <<58, 86, 124, 87, 93, 41, 62>>
   /\ (c.g = "loop" /\ st.status # "run") =>
         st.status = "ok" /\ st.sink.acc = Flatten([i \in 1..3 |-> <<91>> \o DISK \o <<58>> \o IntText(i) \o <<124, 93, 44>>]) \o <<86>>
+ExactName == (c.g = "exactname" /\ st.status # "run") =>
+               IF c.k \in {1, 3} THEN st.status = "ok" /\ st.sink.acc = <<60, 91>> \o Tag(c) \o <<58, 86, 124, 87, 93, 62>>
+               ELSE st.status = "error"
 EmptyIsIncluded == (c.g = "empty" /\ st.status # "run") =>
                      st.status = "ok" /\ st.sink.acc = (IF c.where = "both-emptycache" THEN <<60, 91>> \o DISK \o <<58, 86, 124, 87, 93, 62>> ELSE <<60, 62>>)
 Inl(tag) == <<60, 91>> \o tag \o <<58, 86, 124, 87, 93, 62>>
@@ -180,6 +198,7 @@ IdOf(x) ==
     [] x.g = "changed" -> "changed-" \o ToString(x.top) \o "-" \o x.change \o "-" \o ToString(x.phase)
     [] x.g = "crossdir" -> "crossdir-" \o x.where \o "-" \o ToString(x.phase)
     [] x.g = "trimedge" -> "trimedge-" \o ToString(x.top) \o "-" \o ToString(x.k) \o "-" \o x.where
+    [] x.g = "exactname" -> "exactname-" \o ToString(x.top) \o "-" \o ToString(x.k) \o "-" \o x.where
     [] x.g = "loop" -> "loop-" \o ToString(x.top)
     [] x.g = "fail" -> "fail-" \o ToString(x.top) \o "-" \o x.how
 \* (the second phase of a "changed" case is observed by the harness itself, after the first, on the same engine)
